@@ -166,6 +166,23 @@ theorem cli_selection_spec (ts : List Task) (args : List Tok) (dflt : Option (Li
     · rw [he] at hs
       cases dflt <;> exact hs
 
+/-- an empty word is an ordinary word: not a variable, kept in place; named as a task it is rejected as not found, after
+    an option that takes a value it is that value -/
+example : cliArgs [['t'], [], ['=', 'x']] = [['t'], []] ∧
+    processGen (prepare [{ name := ['t'] }]) false (selArgs (cliArgs [['t'], []]) none) = .error (.notFound []) ∧
+    processGen (prepare [{ name := ['t'], params := [{ short := some 'v', long := [], takesVal := true }] }]) false
+      (selArgs (cliArgs [['t'], ['-', 'v'], []]) none) = .ok [['t']] := by decide
+
+/-- F-C12-empty-word-crash (fixed in /repo by 0ab6253): before the fix an empty word made `process_args` raise
+    IndexError outside the `try` of `DoitMain.run` — no `ERROR` line, no exit code 3 — where the statement demands that
+    the unknown name `""` be rejected -/
+theorem pinned_empty_word_counterexample :
+    pinnedCliArgs [['t', '1'], []] = none ∧ cliArgs [['t', '1'], []] = [['t', '1'], []] ∧
+    (∀ args, ¬ args.contains [] = true → pinnedCliArgs args = some (cliArgs args)) := by
+  refine ⟨by decide, by decide, fun args h => ?_⟩
+  simp only [pinnedCliArgs, cliArgs, h]
+  rfl
+
 /-- the detached value of a task option is taken out as well: `t --val a=b x` selects what `t --val x` selects -/
 example : stripVars [['t'], ['-', '-', 'v'], ['a', '=', 'b'], ['x'], ['k', '=', '1'], ['-', '-', 'v', '=', 'c', '=', 'd'], []]
     = [['t'], ['-', '-', 'v'], ['x'], ['-', '-', 'v', '=', 'c', '=', 'd'], []] := by decide
